@@ -209,7 +209,111 @@ def run(ctx):
             ctx.lost("C13.R1", BB + a + " (no make/unmake site found in it)")
     r3_make_all(ctx)
     r4_callers(ctx)
+    r5_selection(ctx)
     ctx.assumptions += [
         "Bitboard::make/unmake are exact inverses (C03) so 'count 0' means 'position unchanged'",
         "generate_pseudo_legal_moves, is_valid and the other &self helpers do not mutate the board (they take &self; the compiler enforces it)",
     ]
+
+
+# ---- R5: the candidate selection consults source, target and promotion of the move on every accepting path
+def _move_getters_in(tree):
+    out = set()
+    for x in leaves(tree):
+        if x[0] == "call" and x[1].startswith("inkayaku_board::board::Move::get_"):
+            out.add(x[1].rsplit("::", 1)[-1])
+    return out
+
+
+def consulted_fields(ctx, key, depth=0, memo=None):
+    """for a function taking a Move: list of sets of Move getters consulted, one set per path that can return
+    something other than `false` (bool functions), or one set for the whole function (everything else)"""
+    from ..paths import returning_paths, NotLoopFree
+    from ..expr import fold, Unfoldable
+    memo = memo if memo is not None else {}
+    if key in memo:
+        return memo[key]
+    memo[key] = None
+    prog = ctx.prog
+    f = prog.fns.get(key)
+    if f is None or depth > 4:
+        return None
+    is_bool = f["locals"][0]["ty"] == "bool"
+
+    def expand(trees):
+        """getters read directly, plus those read by workspace callees that receive the move"""
+        got = set()
+        alts = [set()]
+        for t in trees:
+            got |= _move_getters_in(t)
+            for x in leaves(t):
+                if x[0] == "call" and x[1] in prog.fns and not x[1].startswith("inkayaku_board::board::Move::get_"):
+                    sub = consulted_fields(ctx, x[1], depth + 1, memo)
+                    if sub:
+                        # a callee with several accepting paths: any of them may be the one taken
+                        alts = [a | s for a in alts for s in sub]
+        return [got | a for a in alts]
+    if is_bool:
+        try:
+            pes = returning_paths(f, limit=5000)
+        except (NotLoopFree, OverflowError):
+            pes = None
+        if pes is not None:
+            out = []
+            for pe in pes:
+                r = pe.ret()
+                try:
+                    if fold(r) == 0:
+                        continue
+                except Unfoldable:
+                    pass
+                trees = [d for (d, c, b, ty) in pe.conds] + [r]
+                out.extend(expand(trees))
+            memo[key] = out
+            return out
+    # flow-insensitive: everything the function calls with the move
+    ex = Exprs(f)
+    trees = []
+    for b in f["blocks"]:
+        if b["cleanup"]:
+            continue
+        t = b["term"]
+        if t["k"] == "call":
+            trees.append(ex.call(t))
+    memo[key] = expand(trees)
+    # collapse alternatives of a non-boolean function into one set
+    if memo[key]:
+        u = set()
+        for s in memo[key]:
+            u |= s
+        memo[key] = [u]
+    return memo[key]
+
+
+def r5_selection(ctx):
+    rid = "C13.R5"
+    ctx.rule(rid, "the move selected for a UCI string is chosen by a predicate that, on every accepting path, consults source square, target square and promotion piece of the candidate", floor=2)
+    prog = ctx.prog
+    need = {"get_source_square", "get_target_square", "get_promotion_piece"}
+    for name in ("find_uci", "uci_to_pgn"):
+        f = ctx.fn(rid, BB + name)
+        ex = Exprs(f)
+        preds = []
+        for b in f["blocks"]:
+            t = b["term"]
+            if not b["cleanup"] and t["k"] == "call" and (t["callee"].get("key") or "").endswith("Iterator::find") or (t["k"] == "call" and not b["cleanup"] and (t["callee"].get("key") or "").endswith("Iterator>::find")):
+                for a in t["args"]:
+                    tr = ex.operand(a)
+                    if tr[0] == "agg" and tr[1] == "closure":
+                        preds.append(tr[2])
+        if len(preds) != 1:
+            ctx.lost(rid, "%s: the closure passed to Iterator::find (found %d)" % (name, len(preds)))
+            continue
+        sets = consulted_fields(ctx, preds[0])
+        if not sets:
+            ctx.lost(rid, "%s: accepting paths of the selection predicate" % name)
+            continue
+        bad = [sorted(need - s) for s in sets if not need <= s]
+        ctx.ob(rid, "%s|selection-reads-source-target-promotion" % name, not bad,
+               "" if not bad else "%s: the predicate that matches a UCI string to a move has %d accepting path(s) that never look at %s of the candidate: a string without (or with any) promotion letter then selects a promotion move"
+               % (name, len(bad), bad[0]), ctx.where(f), sample={"function": name, "accepting_paths": len(sets), "fields": sorted(sets[0])})
